@@ -203,3 +203,6 @@ Section Diagnose.
     | _, _ => "undecodable"
     end.
 End Diagnose.
+
+(* hash-tree-root of an execution payload value of fork f (what the engine is shown) *)
+Definition payload_root (E : Env) (f : fork) (p : value) : bytes := htr E (ExecutionPayloadT (cfg E) f) p.
